@@ -1,6 +1,7 @@
 package world
 
 import (
+	"bufio"
 	"crypto/ecdsa"
 	"crypto/elliptic"
 	"crypto/rand"
@@ -8,8 +9,10 @@ import (
 	"crypto/x509"
 	"crypto/x509/pkix"
 	"encoding/pem"
+	"fmt"
 	"math/big"
 	"net"
+	"net/http"
 	"sync"
 	"testing/synctest"
 	"time"
@@ -95,6 +98,8 @@ type TLSPeer struct {
 	hsErr   error
 	readErr error
 	done    chan struct{}
+	// Connect is the request line of the CONNECT an upstream-proxy peer received (UpstreamProxyThenTLS)
+	Connect string
 }
 
 func startTLS(t *tls.Conn, raw *Peer) *TLSPeer {
@@ -160,7 +165,12 @@ func (p *TLSPeer) ReadErr() error {
 
 // Close closes the TLS connection and the underlying simnet end and waits for the pump to finish.
 func (p *TLSPeer) Close() {
-	p.T.Close()
+	p.mu.Lock()
+	t := p.T
+	p.mu.Unlock()
+	if t != nil {
+		t.Close()
+	}
 	p.Raw.C.Close()
 	<-p.done
 	synctest.Wait()
@@ -177,3 +187,71 @@ func (p *TLSPeer) SawEOF() bool { return p.ReadErr() != nil }
 
 // PeerReleased reports whether the other side released the underlying connection.
 func (p *TLSPeer) PeerReleased() bool { return p.Raw.C.Status().PeerClosed }
+
+// UpstreamProxyThenTLS plays an upstream HTTP (outer == nil) or HTTPS proxy on raw and then the TLS origin
+// the CONNECT names: [outer TLS handshake,] read one CONNECT head, answer 200, then serve TLS with the
+// configuration pick returns for the CONNECT authority (nil: answer 502 instead). The returned peer is
+// the origin's TLS session; a failure in any earlier step is reported as its handshake error.
+func UpstreamProxyThenTLS(raw *Peer, outer *tls.Config, pick func(authority string) *tls.Config) *TLSPeer {
+	p := &TLSPeer{Raw: raw, done: make(chan struct{})}
+	go func() {
+		defer close(p.done)
+		fail := func(err error) {
+			p.mu.Lock()
+			p.hsDone, p.hsErr = true, err
+			p.mu.Unlock()
+		}
+		var conn net.Conn = raw.C
+		if outer != nil {
+			oc := tls.Server(conn, outer)
+			if err := oc.Handshake(); err != nil {
+				fail(fmt.Errorf("upstream proxy TLS handshake: %w", err))
+				return
+			}
+			conn = oc
+		}
+		req, err := http.ReadRequest(bufio.NewReaderSize(conn, 1)) // (bufio enforces a minimum size; a CONNECT head is followed by nothing until it is answered)
+		if err != nil {
+			fail(fmt.Errorf("upstream proxy reading the request: %w", err))
+			return
+		}
+		p.mu.Lock()
+		p.Connect = req.Method + " " + req.RequestURI
+		p.mu.Unlock()
+		var cfg *tls.Config
+		if req.Method == http.MethodConnect {
+			cfg = pick(req.RequestURI)
+		}
+		if cfg == nil {
+			conn.Write([]byte("HTTP/1.1 502 Bad Gateway\r\nContent-Length: 0\r\n\r\n"))
+			fail(fmt.Errorf("upstream proxy: no origin for %q", p.Connect))
+			return
+		}
+		conn.Write([]byte("HTTP/1.1 200 OK\r\n\r\n"))
+		t := tls.Server(conn, cfg)
+		p.mu.Lock()
+		p.T = t
+		p.mu.Unlock()
+		err = t.Handshake()
+		p.mu.Lock()
+		p.hsDone, p.hsErr = true, err
+		p.mu.Unlock()
+		if err != nil {
+			return
+		}
+		b := make([]byte, 64<<10)
+		for {
+			n, err := t.Read(b)
+			p.mu.Lock()
+			p.buf = append(p.buf, b[:n]...)
+			if err != nil {
+				p.readErr = err
+				p.mu.Unlock()
+				return
+			}
+			p.mu.Unlock()
+		}
+	}()
+	synctest.Wait()
+	return p
+}
